@@ -83,6 +83,8 @@ pub assume_specification<T, E>[ Result::<T, E>::unwrap_or ](r: Result<T, E>, d: 
 /// must-fail probes: `if vf_nondet() { assert(false); }` -- each probe is independent of the others
 #[verifier::external_body]
 pub const fn vf_nondet() -> (b: bool) { true }
+/// the same for proof functions (lemmas): an uninterpreted predicate, one index per probe
+pub uninterp spec fn vf_nondet_s(k: int) -> bool;
 /// R6: `panic!()` / `unreachable!()`
 pub fn vf_unreachable() requires false {}
 
